@@ -254,6 +254,13 @@ func (e *Engine) scanMods(n ast.Node, ms *modset) {
 }
 
 func (e *Engine) recordCall(call *ast.CallExpr, ms *modset) {
+	for _, a := range call.Args {
+		if u, ok := ast.Unparen(a).(*ast.UnaryExpr); ok && u.Op == token.AND {
+			if sel, ok := ast.Unparen(u.X).(*ast.SelectorExpr); ok {
+				e.recordWrite(sel, ms, false)
+			}
+		}
+	}
 	fun := ast.Unparen(call.Fun)
 	switch f := fun.(type) {
 	case *ast.Ident:
